@@ -1082,3 +1082,15 @@ impl LocalPeerService {
         }
     }
 }
+
+#[cfg(discret_verif)]
+impl LocalPeerService {
+    pub async fn verif_synchronise_room(
+        room_id: Uid,
+        query_service: &QueryService,
+        peer_service: PeerConnectionService,
+        discret_services: &DiscretServices,
+    ) -> Result<(), crate::Error> {
+        Self::synchronise_room(room_id, query_service, peer_service, discret_services).await
+    }
+}
